@@ -228,3 +228,48 @@ type vCloser struct{ n int }
 func (c *vCloser) Close() error { c.n++; return nil }
 
 var _ = dnsmsg.NewMsg
+
+// VerifH_C14_JoinedDial: two exchanges share one pending dial that never completes; each has its own
+// deadline. Both must return when their own context ends (the one that joined the dial as well).
+func VerifH_C14_JoinedDial_S3() {
+	verifrt.Unwind(80)
+	verifrt.SchedBound(2)
+	never := make(chan struct{})
+	stall := func(dctx context.Context) {
+		select {
+		case <-never:
+		case <-dctx.Done():
+		}
+	}
+	var tr Transport
+	switch verifrt.Shard() {
+	case 0:
+		tr = NewQuicTransport(QuicTransportOpts{DialContext: func(dctx context.Context) (quic.Connection, error) {
+			stall(dctx)
+			return nil, errVConn
+		}})
+	case 1:
+		tr = NewPipelineTransport(PipelineOpts{IsTCP: true, MaxConcurrentQuery: 4, DialContext: func(dctx context.Context) (net.Conn, error) {
+			stall(dctx)
+			return nil, errVConn
+		}})
+	default:
+		tr = NewReuseConnTransport(ReuseConnOpts{DialContext: func(dctx context.Context) (net.Conn, error) {
+			stall(dctx)
+			return nil, errVConn
+		}})
+	}
+	verifrt.CtxNoExpiry = true // only the callers' own deadlines strike in this scenario
+	ctx1, cancel1 := verifrt.CtxWithCancel(nil)
+	ctx2, cancel2 := verifrt.CtxWithCancel(nil)
+	res := make(chan error, 2)
+	go func() { _, err := tr.ExchangeContext(ctx1, vQuery12(1, 1)); res <- err }()
+	go func() { _, err := tr.ExchangeContext(ctx2, vQuery12(2, 2)); res <- err }()
+	verifrt.Quiesce() // both are now waiting for the dial
+	cancel1()
+	cancel2()
+	e1 := <-res
+	e2 := <-res
+	verifrt.Reach("both-returned")
+	verifrt.Assert(e1 != nil && e2 != nil, "both exchanges return an error once their own context ends")
+}
